@@ -643,6 +643,11 @@ def e_g3_reflow(ctx, bdir):
 
 def run(ctx):
     sys.path.insert(0, os.path.join(vlib.VERIF, "tools"))
+    ctx.assumptions += [
+        'translators tools/gkf_translate.py and tools/dp_translate.py (C++ text -> GkfGen.v / DpGen.v) are trusted to read the tables correctly; K compares the regenerated GKF automaton with the running parser on every enumerated document',
+        'memory safety and termination are observed under ASan+UBSan on the generated inputs, not proved; expat is trusted; attribute values and covariance contents are checked by the handlers, covered by K/E only',
+        'events delivered by expat for a well-formed document are modelled as open / close / non-blank text',
+    ]
     import gkf_translate
     translated = True
     try:
